@@ -8,7 +8,7 @@
    quadrature with adaptive quadrature is a numerical-accuracy claim, measured
    by the search oracle (scipy.integrate.quad on the published formula). *)
 From Coq Require Import ZArith List Bool Arith Reals.
-From PM Require Import Base.Num Base.RNum Base.Cplx Model.Kernel Model.ZMatrix Proofs.KernelP Proofs.ZMatrixP Proofs.GeometryR.
+From PM Require Import Base.Num Base.RNum Base.Cplx Model.Kernel Model.ZMatrix Proofs.KernelP Proofs.ZMatrixP Proofs.ZCopyP Proofs.GeometryR.
 Import ListNotations.
 
 (* a directly computed entry is the published expression, for ANY potential
@@ -51,3 +51,15 @@ Theorem C02_orientation_free :
     @psi RNum w srm b a 1%R scale kp false fvs = @psi RNum w srm a b 1%R scale kp false fvs.
 Proof. exact psi_reverse_proof. Qed.
 Print Assumptions C02_orientation_free.
+
+(* the entries the fill COPIES: a pair of pulses (m', n') that is the pair (m, n) moved by one translation (same half
+   lengths, directions, direction signs, objects and index distance; for the source pulse also radii and ground signs) has the same directly computed entry at every
+   optimisation level, for ANY potential functional -- copying it is exact.  That the pairs of every copy group the
+   code forms are such translates is checked on every case of stage `zmat` (copy_dev). *)
+Theorem C02_copied_entry_is_direct :
+  forall (w srm w2 : R) psi_f conn (ps : list (@zpulse RNum)) (m n m' n' : nat) (t : V3R),
+    obs_shifted t (P ps m) (P ps m') -> shifted t (P ps n) (P ps n') ->
+    (Z.of_nat m' - Z.of_nat n' = Z.of_nat m - Z.of_nat n)%Z ->
+    forall f8, entry w srm w2 psi_f conn ps 1%R f8 m' n' = entry w srm w2 psi_f conn ps 1%R f8 m n.
+Proof. exact copy_sound_proof. Qed.
+Print Assumptions C02_copied_entry_is_direct.
